@@ -9,7 +9,7 @@
   construction (`BN.anon n` from the factory counter, `BN.lbl l` from a label). Every literal has
   a datatype by construction (`Term.lit` has no optional datatype).
 
-  NOT claimed (and false on the code, finding D31): "datatype rdf:langString ⇒ a tag is present" —
+  NOT claimed (and false on the code, finding D41): "datatype rdf:langString ⇒ a tag is present" —
   `"x"^^rdf:langString` is yielded with that datatype and no tag. See `ttl_langString_untagged`.
   Absoluteness of IRIs under an absolute base depends on the IRI resolver (`/repo/iri`, a
   `net/url` wrapper) and is checked by the harness oracle only.
@@ -30,7 +30,7 @@ theorem ttl_emits_wf (resolve) (isSpace) (e : End) (base : Option (List Nat)) (p
   obtain ⟨h1, _, h3⟩ := C05.real_producers_ok _ C05.gen_tables_nul.1
   exact doc_emits_wf (C05.realCfg false resolve isSpace) e h1 h3 base pf inp
 
-/-- TriG (repaired code, D30). -/
+/-- TriG (repaired code, D40). -/
 theorem trig_emits_wf (resolve) (isSpace) (e : End) (base : Option (List Nat)) (pf : List (List Nat × List Nat))
     (inp : List Nat) : ∀ s ∈ (run (C05.realCfg true resolve isSpace) e base pf inp).1, WFStmt true s := by
   obtain ⟨h1, _, h3⟩ := C05.real_producers_ok _ C05.gen_tables_nul.2
@@ -50,12 +50,12 @@ def litTagged : T → Prop
   | .lit _ dt none => dt ≠ rdfLangString ∧ dt ≠ rdfDirLangString
   | _ => True
 
-/-- full statement (NOT a theorem: false on the code, D31) -/
+/-- full statement (NOT a theorem: false on the code, D41) -/
 def doc_emits_tagged : Prop :=
   ∀ (trig : Bool) (e : End) (inp : List Nat),
     ∀ s ∈ (run (C05.realCfg trig (fun _ r => some r) (fun c => c = 0x20)) e none [] inp).1, litTagged s.o
 
-/-- D31 witness: `<a> <b> "x"^^<…#langString> .` yields a literal with datatype rdf:langString and no tag. -/
+/-- D41 witness: `<a> <b> "x"^^<…#langString> .` yields a literal with datatype rdf:langString and no tag. -/
 theorem ttl_langString_untagged : ¬ doc_emits_tagged := by
   intro h
   have := h false .eof (asc "<a> <b> \"x\"^^<http://www.w3.org/1999/02/22-rdf-syntax-ns#langString> .")
